@@ -29,7 +29,7 @@ Definition run_history (inp : list Z) : list Z :=
    reservation whose assigned pods hold requests there — the shape of finding 1 *)
 Definition grown_op (c : cache) (o : cop) : list (Z * Z) :=
   match o with
-  | CUpdate _ s =>
+  | CUpdate _ _ s =>
     match find_info (s_uid s) (infos c) with
     | Some i =>
       map (fun k => (s_uid s, k))
@@ -60,13 +60,43 @@ Definition flags_of (hs : list hop) := flags init_cache true [] hs.
 
 Definition dec_views (n : nat) (obs : list Z) : list cview := fst (decode_many dec_cview n obs).
 
+(* an operating pod that names a current owner must come out with that owner assigned (so that,
+   being allocate-once, it is not offered again): (reservation uid, owner uid) claimed by h *)
+Definition owner_claim (h : hop) : option (Z * Z) :=
+  match rev (lower h) with
+  | CUpdate false own s :: _ => if own =? 0 then None else Some (s_uid s, own)
+  | _ => None
+  end.
+Definition claim_ok (cl : option (Z * Z)) (o : cview) : bool :=
+  match cl with
+  | None => true
+  | Some (u, own) =>
+    existsb (fun v => (v_uid v =? u) && existsb (fun q : Z * list Z => fst q =? own) (v_assigned v))
+            (o_infos o)
+  end.
+
+Notation flag := (bool * list (Z * Z))%type.
+
+(* clause 8: the current owner of an operating pod is assigned *)
+Definition step_code (h : hop) (f : flag) (v : cview) : Z :=
+  let c := prop_view (fst f) v in
+  if c =? 0 then (if claim_ok (owner_claim h) v then 0 else 8) else c.
+Definition step_code_weak (h : hop) (f : flag) (v : cview) : Z :=
+  let c := prop_view_weak (fst f) v in
+  if c =? 0 then (if claim_ok (owner_claim h) v then 0 else 8) else c.
+
+Fixpoint codes (sc : hop -> flag -> cview -> Z) (hs : list hop) (fl : list flag) (vs : list cview)
+  : list Z :=
+  match hs, fl, vs with
+  | h :: hs', f :: fl', v :: vs' => sc h f v :: codes sc hs' fl' vs'
+  | _, _, _ => []
+  end.
+
 Definition prop_history (inp obs : list Z) : Z :=
   if crashed obs then 99
   else
     let hs := dec_history inp in
-    let vs := dec_views (length hs) obs in
-    first_nonzero (map (fun p : (bool * list (Z * Z)) * cview => prop_view (fst (fst p)) (snd p))
-                       (combine (flags_of hs) vs)).
+    first_nonzero (codes step_code hs (flags_of hs) (dec_views (length hs) obs)).
 
 Definition pair_mem (p : Z * Z) (l : list (Z * Z)) : bool :=
   existsb (fun q : Z * Z => (fst q =? fst p) && (snd q =? snd p)) l.
@@ -78,22 +108,21 @@ Definition exact_fail_pairs (v : iview) : list (Z * Z) :=
 
 (* 1 = the first failing clause is "ledger exact" and every failing (reservation, dimension)
    was grown by an earlier update (finding C05-update-grows-dimension); 0 otherwise *)
-Fixpoint sig_steps (l : list ((bool * list (Z * Z)) * cview)) : Z :=
-  match l with
-  | [] => 0
-  | p :: t =>
-    let code := prop_view (fst (fst p)) (snd p) in
-    if code =? 0 then sig_steps t
+Fixpoint sig_steps (hs : list hop) (fl : list flag) (vs : list cview) : Z :=
+  match hs, fl, vs with
+  | h :: hs', f :: fl', v :: vs' =>
+    let code := step_code h f v in
+    if code =? 0 then sig_steps hs' fl' vs'
     else if (code =? 1)
-            && forallb (fun q => pair_mem q (snd (fst p)))
-                       (flat_map exact_fail_pairs (o_infos (snd p)))
+            && forallb (fun q => pair_mem q (snd f)) (flat_map exact_fail_pairs (o_infos v))
     then 1 else 0
+  | _, _, _ => 0
   end.
 Definition sig_history (inp obs : list Z) : Z :=
   if crashed obs then 0
   else
     let hs := dec_history inp in
-    sig_steps (combine (flags_of hs) (dec_views (length hs) obs)).
+    sig_steps hs (flags_of hs) (dec_views (length hs) obs).
 
 (* non-trivial: at least three entry points, and at some point a cached reservation has a
    pod assigned *)
@@ -119,8 +148,15 @@ Definition run_fits (inp : list Z) : list Z :=
 
 Definition pre_zero (pre : res) : bool := forallb (fun e : Z * Z => snd e =? 0) pre.
 
+(* the ledger step: after AddAssignedPod every dimension grew by the pod's request if the
+   dimension is restricted, and by nothing otherwise; the pod count grew by one *)
+Definition step_exactb (i : rinfo) (req : res) (alloc' : list Z) (n' : Z) : bool :=
+  eq_listZ alloc' (map (fun k => getv k (r_allocated i)
+                                 + (if memZ k (r_names i) then getv k req else 0)) dims)
+  && (n' =? n_assigned i + 1).
+
 (* clauses: 1 verdict <-> specification, 2 policy dispatch, 3 no over-allocation after the
-   admitted pod was added *)
+   admitted pod was added, 4 the ledger step is exact *)
 Definition prop_fits (inp obs : list Z) : Z :=
   if crashed obs then 99
   else
@@ -132,6 +168,7 @@ Definition prop_fits (inp obs : list Z) : Z :=
     else if is_nil r1 && pre_zero pre
             && negb (within_afterb i req (res_of_vals (firstn D t2)) (hdZ (skipn D t2)))
     then 3
+    else if is_nil r1 && negb (step_exactb i req (firstn D t2) (hdZ (skipn D t2))) then 4
     else 0.
 
 Definition nontrivial_fits (inp : list Z) : bool :=
